@@ -168,6 +168,9 @@ def install(E):
     I[SECP + 'NewPublicKey'] = new_pub
     def negate_val(e, a): e.store(a[0], Opaque('sc', sneg(e, scval(e, a[1])))); return a[0]
     I['(*%sModNScalar).NegateVal' % SECP] = negate_val
+    # Negate negates the receiver in place and returns it
+    def negate_inplace(e, a): e.store(a[0], Opaque('sc', sneg(e, scval(e, a[0])))); return a[0]
+    I['(*%sModNScalar).Negate' % SECP] = negate_inplace
     def sc_mul(e, a): e.store(a[0], Opaque('sc', smul(e, scval(e, a[0]), scval(e, a[1])))); return a[0]
     I['(*%sModNScalar).Mul' % SECP] = sc_mul
     def sc_add(e, a): e.store(a[0], Opaque('sc', sadd(e, scval(e, a[0]), scval(e, a[1])))); return a[0]
